@@ -138,8 +138,8 @@ def exports_for(ctx):
     add("adj2-top", mode="adjacency", cx="top", adjk=2, adjalpha="full")
     if th:
         add("adj3-body", mode="adjacency", cx="bodye", adjk=3, adjalpha="core")
+        add("adj3-bodyq", mode="adjacency", cx="bodyq", adjk=3, adjalpha="core")
         add("adj3-top", mode="adjacency", cx="top", adjk=3, adjalpha="core")
-        add("adj3-full", mode="adjacency", cx="bodyq", adjk=3, adjalpha="full")
     # nesting at, below and beyond the documented limits (63 types, 255 expressions/bodies)
     lim = (62, 63, 64, 65, 254, 255, 256, 257, 1000, 20000) if th else (63, 64, 255, 256, 257, 20000)
     for cx, start, mt in (("xu32", "OU32", 3), ("tbool", "OBool", 3), ("cu8", "OU8", 3), ("sslice", "ESlice", 3), ("lhs", "LU32", 3),
